@@ -26,6 +26,8 @@ def parseEv (s : String) : Option Ev :=
   | ["p", r, k] => do some (.publish ((← r.toNat?), (← k.toNat?)))
   | ["c", p, b] => do some (.create (← p.toNat?) (← b.toNat?))
   | ["s", l] => do some (.saveMeta (← natList l))
+  | ["ml", r, k] => do some (.mLock ((← r.toNat?), (← k.toNat?)))
+  | ["mu", r, k] => do some (.mUnlock ((← r.toNat?), (← k.toNat?)))
   | ["ga"] => some .gcAcquire
   | ["gl", l] => do some (.gcList (← natList l))
   | ["gr"] => some .gcRelease
